@@ -13,10 +13,11 @@ class C06(Spec):
     variant = "plain"
     shard = 40
     timeout = 900
+    env = {"PV_CASE_TIMEOUT": "40"}
     rule = ("1-4 writes of sizes 1..200 000 bytes issued through Transport::asyncWrite on a live listener, from the loop thread "
             "and from a foreign thread, with the outcome of each successive send call on that connection scripted through "
             "the PISTACHE_VERIF hook: every placement of one or two would-blocks and of short writes (1, 7, size-1 bytes) "
-            "over the first calls (exhaustive for scripts up to 4 outcomes over {accept-all, short, would-block}), plus seeded "
+            "over the first calls (exhaustive for scripts up to 4 outcomes over {accept-all, short, would-block}), a really blocked 8-32 MB write whose descriptor is then reported readable and writable in one poll result (worker kept busy meanwhile), plus seeded "
             "longer scripts. The peer's bytes are compared with the concatenation of the buffers, each promise's value with "
             "the buffer size, and the number of send calls with the model's. non-trivial = script containing a would-block "
             "or a short write; distinct by case line")
@@ -31,6 +32,9 @@ class C06(Spec):
                 for L in range(0, 4 if tier == "quick" else 5):
                     for sc in itertools.product(alphabet, repeat=L):
                         cases.append("X %s %s %s" % (th, ",".join(map(str, sizes)), ",".join(sc) if sc else "a999999"))
+        # one poll result reporting the descriptor readable and writable while a write is pending
+        for busy, mb in ([(300, 8), (200, 16)] if tier == "quick" else [(b, m) for b in (100, 300, 600) for m in (6, 8, 16, 32)]):
+            cases.append("E %d %d" % (busy, mb << 20))
         n = 150 if tier == "quick" else 3000
         for _ in range(n):
             sizes = [rng.choice([1, 2, 100, 4096, 65536, 200000, rng.randint(1, 50000)]) for _ in range(rng.randint(1, 4))]
@@ -50,8 +54,13 @@ class C06(Spec):
         if impl.startswith(("CRASH", "HANG")):
             return "transport harness %s on %s" % (impl, case)
         t = case.split()
-        sizes = [int(x) for x in t[2].split(",")]
         f = dict(x.split("=") for x in impl.split()[1:])
+        if t[0] == "E":
+            if int(f["bytes"]) != int(t[2]) or f["content"] != "1" or f["p"] != t[2]:
+                return ("a write was pending when its descriptor was reported readable and writable together: the peer received %s of %s bytes, promise %s"
+                        % (f["bytes"], t[2], {"P": "never settled", "R": "rejected"}.get(f["p"], "fulfilled with " + f["p"])))
+            return None
+        sizes = [int(x) for x in t[2].split(",")]
         if int(f["bytes"]) != sum(sizes) or f["content"] != "1":
             return "peer received %s bytes (content ok=%s) instead of the %d bytes issued, script %s" % (f["bytes"], f["content"], sum(sizes), t[3])
         vals = f["p"].split(",")
@@ -63,11 +72,15 @@ class C06(Spec):
         return None
 
     def nontrivial(self, case, impl):
+        if case.startswith("E"):
+            return True
         sc = case.split()[3]
         return "w" in sc or "a1" in sc or "a7" in sc
 
     def kind(self, case, impl):
         t = case.split()
+        if t[0] == "E":
+            return "readable+writable"
         return "%s-%dwrites-%s" % (t[1], len(t[2].split(",")), "wouldblock" if "w" in t[3].split(",") else "accept")
 
 
@@ -80,7 +93,7 @@ def replay(obj):
     case = obj["case"]
     exe = pv.build_harness(s.harness, s.variant)
     drv = pv.build_model_driver()
-    i, _ = pv.run_parallel([exe], [case])
+    i, _ = pv.run_parallel([exe], [case], env=s.env)
     m, _ = pv.run_parallel([drv, s.area], [case])
     print("case :", case); print("impl :", i[0]); print("model:", m[0])
     w = s.oracle(case, i[0])
